@@ -238,9 +238,16 @@ func SolveAll(obls []*Obligation, cfg *SolverCfg, par int) {
 			defer func() { <-sem }()
 			c := *cfg
 			if o.Cover {
-				c.Timeout = 2 * time.Second
-				c.Solvers = []string{"z3new-e"}
-				c.Agree = false
+				// vacuity guards: any solver that refutes the state counts. Quick tier: the two e-matching configurations (they
+				// answer within a fraction of a second); thorough tier: the whole portfolio with more time.
+				if cfg.Agree {
+					c.Timeout = 20 * time.Second
+					c.Solvers = []string{"z3new-e", "z3-e", "z3new", "cvc5"}
+				} else {
+					c.Timeout = 3 * time.Second
+					c.Solvers = []string{"z3new-e", "z3-e"}
+				}
+				c.Agree = true
 			}
 			goal := o.Goal
 			q := o.Ctx.Query(o.Hyps, goal, QueryOpts{ProduceModels: false})
